@@ -671,6 +671,13 @@ async def run_job(job):
         tracemalloc.stop()
     res['sent'] = len(res['steps'])
     res['closed_by_input'] = link.closed
+    try:
+        v = c.conn.get_extra_info('client_version' if role == 'server' else 'server_version')
+        res['version'] = v if v is None else str(v)
+    except Exception as e:                          # noqa
+        res['version'] = None
+    if c.phase == 'chan' and c.chan != 0:
+        res['error'] = 'bring-up: the endpoint under test allocated channel %d, the payloads assume 0' % c.chan
     # let a closed connection finish its cleanup, then close whatever is still open
     await settle(link)
     res['owner_after_input'] = [(k, exc_class(e)) for k, e in c.owner]
@@ -787,6 +794,55 @@ def run_connections(job, emit):
         i += rec['count']
 
 
+def run_parser_stage(job):
+    """one stage of harness/c10_parsers.py under the alarm; -> record like run_connections emits"""
+    import tempfile
+    import shutil
+    from . import c10_parsers as P
+    rng = random.Random('c10:%s:%s' % (job['stage'], job.get('seed', 0)))
+    n, tier, stage = job.get('n', 100), job.get('tier', 'quick'), job['stage']
+    rec = {'first': 0, 'count': 1}
+    root = tempfile.mkdtemp(prefix='c10-')
+    P.PROGRESS.clear()
+    signal.alarm(job.get('alarm', 60))
+    try:
+        if stage == 'getters':
+            cases, bad, stats = P.getters_run(rng, n)
+        elif stage == 'agent':
+            cases, bad, stats = asyncio.run(P.agent_run(rng, n))
+        elif stage == 'socks':
+            cases, raised, stats, inputs = P.socks_run(rng, n)
+            bad = [('SSHSOCKSForwarder.data_received', b'|'.join(ch), exc) for ch, exc in raised]
+            rec['chunks'] = [[c.hex() for c in ch] for ch, _ in raised]
+        elif stage == 'sftp_framing':
+            cases, bad, stats = asyncio.run(P.sftp_framing_run(rng, n, root))
+        elif stage == 'copy':
+            cases, bad, stats, params = asyncio.run(P.copy_run(rng, tier, root, job.get('only')))
+        elif stage == 'fuzz_imports':
+            bad, stats = P.fuzz_imports(rng, n, job.get('only'))
+            cases = []
+        elif stage == 'fuzz_sftp_server':
+            bad, stats = asyncio.run(P.fuzz_sftp_server(rng, root, tier == 'thorough'))
+            cases = []
+        elif stage == 'fuzz_sftp_client':
+            bad, stats = asyncio.run(P.fuzz_sftp_client(rng, tier == 'thorough'))
+            cases = []
+        else:
+            raise ValueError('unknown stage ' + stage)
+        rec['res'] = {'cases': cases, 'stats': stats,
+                      'bad': [(f, d.hex() if isinstance(d, (bytes, bytearray)) else repr(d), e) for f, d, e in bad]}
+    except Hang as e:
+        rec['hang'] = str(e)[-1800:]
+        rec['item'] = P.PROGRESS.get('item')
+    except Exception as e:                          # noqa: harness failure: reported, never silent
+        rec['error'] = '%s: %s' % (type(e).__name__, e)
+        rec['trace'] = traceback.format_exc()[-1500:]
+    finally:
+        signal.alarm(0)
+        shutil.rmtree(root, ignore_errors=True)
+    return rec
+
+
 def child_main(jobs_path, out_path):
     os.environ.setdefault('PYTHONHASHSEED', '0')
     jobs = json.load(open(jobs_path))
@@ -802,7 +858,10 @@ def child_main(jobs_path, out_path):
             out.flush()
         out.write(json.dumps({'start': idx, 'next': 0}) + '\n')
         out.flush()
-        run_connections(job, emit)
+        if job.get('kind') == 'parsers':
+            emit(run_parser_stage(job))
+        else:
+            run_connections(job, emit)
         out.write(json.dumps({'done': idx}) + '\n')
         out.flush()
     out.write(json.dumps({'end': True}) + '\n')
